@@ -12,7 +12,7 @@ oracle leg           the property on the real code: reported in-features = expor
 known findings       K9 residual sum with a concat operand, K10 depthwise fed by a concat
                      (generated on purpose, keyed from the model's `supported` analysis).
 """
-from .. import pitcheck
+from .. import common, pitauto, pitcheck
 
 KEYS = {
     'add-with-concat-operand': 'C09:add-with-concat-operand',
@@ -106,6 +106,18 @@ def run(chk):
                 n_unsup += 1
             _oracle(chk, r, a, head, rows)
     chk.extra['unsupported_cases'] = n_unsup
+    # autoconvert_layers=False: user-placed PIT layers; every conv converted (demanded) and one left plain (K11)
+    jobs = [(chk.rng.randint(0, 1 << 30), i % 3 == 0) for i in range(12 if chk.quick else 200)]
+    for o in common.pmap(pitauto.auto_off_case, jobs):
+        case = {'kind': 'auto_off', 'seed': o['seed'], 'leave_plain': o['leave_plain']}
+        chk.count(('auto_off', o['seed'], o['leave_plain']), nontrivial=bool(o.get('pruned')) or o['leave_plain'],
+                  bucket='autoconvert-off:' + ('pit-feeds-plain' if o['leave_plain'] else 'all-converted'))
+        if o.get('error'):
+            chk.violation('C09:autoconvert-off:raises', o['error'], case)
+        elif o.get('pruned_error') or o.get('pruned_diff') is not None:
+            what = o.get('pruned_error') or 'exported network differs: %s' % o.get('pruned_diff')
+            chk.violation('C09:autoconvert-off:' + ('pit-layer-feeds-plain-layer' if o['leave_plain'] else 'export-inconsistent'),
+                          'autoconvert_layers=False: ' + what, case)
     if (broken or chk.corr_disagreements) and not chk.violations:
         # escalate the failing-input search
         more = pitcheck.run_nets(chk, pitcheck.specs_for(chk, n * 4, {'excl': True, 'unsupported': False}))
@@ -119,6 +131,10 @@ def run(chk):
 def replay(data):
     from .. import pitcase
     case = data['case']
+    if case.get('kind') == 'auto_off':
+        o = pitauto.auto_off_case((case['seed'], case['leave_plain']))
+        print(o)
+        return 1 if (o.get('error') or o.get('pruned_error') or o.get('pruned_diff') is not None) else 0
     spec = {'seed': case['seed'], 'dim': case['dim'], 'opts': case['opts'], 'fold_bn': case['fold_bn'],
             'excl_mode': case['excl_mode'], 'styles': case.get('styles') or ['mixed', 'mixed', 'min'],
             'full_cost': case.get('full_cost'), 'train_mode': case.get('train_mode'),
